@@ -119,6 +119,17 @@ def gsAsIsConstructorLoc (fwd : Bool) (A : CRS K) (nt : Nat) : List (Loc K) :=
 def iluConstructorLoc (lower : Bool) (A : CRS K) (Dv : Vec K) (nt : Nat) : List (Loc K) :=
   constructorLoc A (!lower) Dv (iluLevelsN lower (pattern A)) nt
 
+/-- the locations of `x` the scan of local row `r` reads, in program order: `x[col[tid][j]]`, `j = ptr[tid][r] ..
+ptr[tid][r+1]-1` (the tables `ord/ptr/col/val/D` themselves are only read by `sweep`/`solve`, never written) -/
+def Loc.cols (L : Loc K) (r : Nat) : List Nat :=
+  (List.range (L.ptr.getD (r + 1) 0 - L.ptr.getD r 0)).map fun k => L.col.getD (L.ptr.getD r 0 + k) 0
+
+/-- loads of `x` by `parallel_sweep::sweep` in local row `r`: every stored column except `i = ord[tid][r]` -/
+def gsLocLoads (L : Loc K) (r : Nat) : List Nat := (L.cols r).filter (fun c => c != L.ord.getD r 0)
+
+/-- loads of `x` by `sptr_solve::solve` in local row `r`: every stored column, then `x[i]` -/
+def iluLocLoads (L : Loc K) (r : Nat) : List Nat := L.cols r ++ [L.ord.getD r 0]
+
 /-- `ord[tid][r]` -/
 def rowOfEv (Ls : List (Loc K)) (e : Ev) : Nat := (Ls.getD e.1 Loc.empty).ord.getD e.2 0
 
